@@ -413,6 +413,27 @@ func genOverlay(p *packages.Package, con *Contracts, L *Loaded) (string, []strin
 			cl.FuncName = fmt.Sprintf("__c%d_%s", g.n, cl.Kind)
 			origin := fmt.Sprintf("//origin %s %s %s (%s:%d)\n", name, cl.Kind, cl.Label, filepath.Base(cl.File), cl.Line)
 			switch cl.Kind {
+			case "assert":
+				// assert <callee name> [label:] expr   -- checked and then assumed before each call of callee
+				fs2 := strings.Fields(cl.Text)
+				if len(fs2) < 2 {
+					stale = append(stale, fmt.Sprintf("%s:%d: bad assert clause", cl.File, cl.Line))
+					staleFuncs[cl.FuncName] = true
+					continue
+				}
+				cl.Callee = strings.TrimSuffix(fs2[0], ":")
+				rest := strings.TrimSpace(strings.TrimPrefix(cl.Text, fs2[0]))
+				if m := reLabel.FindStringSubmatch(rest); m != nil {
+					cl.Label = m[1]
+					rest = rest[len(m[0]):]
+				}
+				e, err := rewriteSpec(rest)
+				if err != nil {
+					stale = append(stale, fmt.Sprintf("%s:%d: %v", cl.File, cl.Line, err))
+					staleFuncs[cl.FuncName] = true
+					continue
+				}
+				w("%sfunc %s%s(%s) bool {\n\treturn %s\n}\n", origin, cl.FuncName, tparams, strings.Join(params, ", "), e)
 			case "requires", "panics", "assumes":
 				e, err := rewriteSpec(cl.Text)
 				if err != nil {
